@@ -5,6 +5,10 @@ main program + GENBBdia and the ranlux-based rnd1 (the harness provides rnd1/rnd
 reading the shared deviate tape).  Nothing else is touched."""
 import sys, re
 src, dst = sys.argv[1], sys.argv[2]
+# --harmonise: second flavour of the oracle in which the reference's 7-digit constants (pi, 2pi, the 0.511 in fermi)
+# are replaced by the double-precision values the port uses.  Used only to *explain* a mismatch against the
+# strict reference (DESIGN.md section 3, "constants rule"); never as the primary oracle.
+harmonise = len(sys.argv) > 3 and sys.argv[3] == '--harmonise'
 lines = open(src, 'rb').read().decode('latin-1').replace('\r', '').split('\n')
 out = []
 # 1. skip up to 'subroutine GENBBsub'
@@ -20,6 +24,24 @@ while i < n:
             i += 1
         i += 1
         continue
+    # observation hook (behaviour preserving): note when fermi() clamps its by-reference argument E to 50 eV
+    if re.match(r'^\s+if\(E\.lt\.50\.e-6\)\s*E=50\.e-6\s*$', l):
+        out.append('\tif(E.lt.50.e-6) then')
+        out.append('\t   call vfnote50')
+        out.append('\t   E=50.e-6')
+        out.append('\tendif')
+        i += 1
+        nhook = globals().get('nhook', 0) + 1
+        globals()['nhook'] = nhook
+        continue
+    if harmonise and not l[:1] in 'cC*':
+        l2 = l.replace('twopi=6.2831853', 'twopi=6.28318530717958623d0').replace('data pi/3.1415927/', 'data pi/3.14159265358979312d0/')
+        l2 = l2.replace('w=E/0.511+1.', 'w=E/0.51099906d0+1.').replace('exp(3.1415927*y+', 'exp(3.14159265358979312d0*y+')
+        if l2 != l:
+            globals()['nharm'] = globals().get('nharm', 0) + 1
+        l = l2
     out.append(l)
     i += 1
+assert (not harmonise) or globals().get('nharm', 0) == 8, globals().get('nharm')
+assert globals().get('nhook', 0) == 1, 'fermi clamp line not found exactly once'
 open(dst, 'w').write('\n'.join(out) + '\n')
